@@ -1,0 +1,8 @@
+//go:build !verif
+
+package iobroker
+
+import "context"
+
+// verifPoint is a no-op unless built with -tags verif.
+func verifPoint(context.Context, string, sDirection, string) {}
